@@ -2,6 +2,7 @@ import FrappyProofs.Lemmas.CompatComplete
 import FrappyProofs.Lemmas.CompatLawsRat
 import FrappyProofs.Lemmas.CopyHeap
 import FrappyProofs.Lemmas.DatainfoOpt
+import FrappyProofs.Lemmas.DatainfoSnap
 import FrappyProofs.Lemmas.Variants
 import FrappyProofs.Lemmas.CompatRefl
 import FrappyModel.Generated.C03
@@ -95,6 +96,37 @@ theorem scaled_description_exact_only_if (D : Consts F) (s mn mx ar rr : F) (u f
     subst h1 h2
     exact ⟨by simp [DInfo.Aligned, DType.snap, e1, g1], by simp [DInfo.Aligned, DType.snap, e2, g2]⟩
   · cases hex
+
+/-- scaled limits that are NOT grid aligned (outside the quantifier of the property; `checkProperties` has the remark
+"Datatype.copy() will round min, max to a multiple of self.scale"): for EVERY well-formed tree whose limits have finite
+grid values, the tree `dt'` with the limits moved to their grid values is well formed and grid aligned, has the
+identical description, and the type rebuilt from the description of `dt` exports that description again and validates /
+imports exactly like `dt'`.  So the description is a fixed point of the round trip for every tree, and what the
+round trip changes is exactly `snapLimits`.  Carrier: `GridStable` (`round((k*scale)/scale) = k`). -/
+theorem rebuild_snaps (hG : GridStable F) (D : Consts F) (hD : D.OK) (dt dt' : DInfo F) (hwf : dt.WF D)
+    (hs : DInfo.snapLimits dt = some dt') :
+    dt'.WF D ∧ dt'.Exportable ∧
+    ∃ j dt'', exportDatatype D dt = .ok j ∧ exportDatatype D dt' = .ok j ∧ getDatatype D j = .ok dt'' ∧
+      exportDatatype D dt'' = .ok j ∧
+      (∀ v prev, validate dt''.erase v prev = validate dt'.erase v prev) ∧
+      (∀ w, importValue dt''.erase w = importValue dt'.erase w) := by
+  obtain ⟨w, x, ex⟩ := snapLimits_spec hG D dt dt' hwf hs
+  obtain ⟨j, dt'', h1, h2, h3, h4, h5⟩ := rebuild_equiv D hD dt' w x
+  exact ⟨w, x, j, dt'', by rw [← ex]; exact h1, h1, h2, h3, h4, h5⟩
+
+/-- … and `copy()` of any such tree IS the tree with the limits moved to their grid values -/
+theorem copy_snaps (hG : GridStable F) (D : Consts F) (hD : D.OK) (dt dt' : DInfo F) (hwf : dt.WF D)
+    (hs : DInfo.snapLimits dt = some dt') : copy D dt = .ok dt' :=
+  copy_snap_gen hG D hD constsOK2 dt dt' hwf hs
+
+/-- for a grid-aligned tree nothing moves (`rebuild_snaps` / `copy_snaps` specialise to `rebuild_equiv` / `copy_equiv`) -/
+theorem snapLimits_aligned (D : Consts F) (dt : DInfo F) (hwf : dt.WF D) (hex : dt.Exportable) :
+    DInfo.snapLimits dt = some dt :=
+  snapLimits_of_exportable D dt hwf hex
+
+/-- the monitors' test "is this tree in the quantifier" is the hypothesis `Exportable` of the theorems -/
+theorem exportableB_iff_exportable (dt : DInfo F) : dt.exportableB = true ↔ dt.Exportable :=
+  exportableB_iff dt
 
 /-! ## compatibility verdicts -/
 
@@ -463,6 +495,18 @@ example : DInfo.Aligned (1/10 : Rat) (-3/10) ∧ DInfo.Aligned (1/10 : Rat) (7/1
   · unfold DInfo.Aligned; decide +kernel
   · decide +kernel
   · decide +kernel
+
+/-- `rebuild_snaps` / `copy_snaps` apply to `ArrayOf(ScaledInteger(0.1, -0.26, 0.74), 0, 3)` over the exact carrier
+(which is `GridStable`): the limits move to `-0.3` and `0.7` -/
+example : GridStable Rat ∧
+    DInfo.snapLimits (.array (.scaled (1/10 : Rat) (-26/100) (74/100) (1/10) 0 "" "%g") 0 3) =
+      some (.array (.scaled (1/10 : Rat) (-3/10) (7/10) (1/10) 0 "" "%g") 0 3) ∧
+    ¬ DInfo.Aligned (1/10 : Rat) (74/100) := by
+  have h1 : DType.snap (1/10 : Rat) (-26/100) = some (-3/10) := by decide +kernel
+  have h2 : DType.snap (1/10 : Rat) (74/100) = some (7/10) := by decide +kernel
+  have f1 : isFinite (-3/10 : Rat) = true := by decide +kernel
+  have f2 : isFinite (7/10 : Rat) = true := by decide +kernel
+  exact ⟨rat_gridStable, by simp [DInfo.snapLimits, h1, h2, f1, f2], by unfold DInfo.Aligned; decide +kernel⟩
 
 /-- … and `compatible_complete` applies to a container pair with nested members -/
 example : ∃ (a b : DType Rat), a.WF ∧ b.WF ∧ GridAligned a ∧ GridAligned b ∧ Nested a b :=
